@@ -750,6 +750,8 @@ class Note:
                 result += f".o({self.octave})"
             else:
                 result += f".oabs({self.octave})"
+        elif self.octave != 0 and (self.is_silence or self.is_continuation):
+            result += f".oabs({self.octave})"
 
         if self.mode is not None and self.is_note:
             result += f".{self.mode}"
